@@ -19,7 +19,7 @@ func init() {
 			"(b) every fixed-width decode of a database value is dominated by a length check (a record with missing fields cannot panic AuthenticateUser, UploadStatus, list or read); " +
 			"(c) the writer's and every reader's (key, width, field) tables agree with each other and with the frozen table; (d) each Put is conditional on its own field being present and its error is propagated; " +
 			"(e) the token-bucket constructor is only reached with rates proven positive.",
-		NotDecided: "the contents of the store after an operation sequence, persistence across reopen (bbolt's job), JSON semantics of the request body.",
+		NotDecided:  "the contents of the store after an operation sequence, persistence across reopen (bbolt's job), JSON semantics of the request body.",
 		Assumptions: []string{"(*bbolt.Bucket).Get returns nil for an absent key", "ratelimit.NewBucketWithRate panics for rate or capacity <= 0", "binary.BigEndian.UintN panics on short input"},
 	})
 }
